@@ -30,11 +30,31 @@ def fn_bounds():
     return ";".join(" ".join(l) for l in lists if l)
 
 
+def val_bounds():
+    """The bound lists a host value `Val<T>` has to pass (`impl … Value for Val<T>`
+    and `Value::Transformed`), as words, for the driver's `c12 admits`."""
+    try:
+        text = open(GEN).read()
+    except OSError:
+        return None
+    out = []
+    for field in ("valImpl", "valueTransformed"):
+        m = re.search(field + r" := \[([^\]]*)\]", text)
+        if not m:
+            return None
+        ws = [w.strip().lstrip(".") for w in m.group(1).split(",")]
+        out.append(" ".join(w for w in ws if w in BOUND_WORDS))
+    return ";".join(out)
+
+
 def harness_args(ctx, seed, tier):
     args = ["run", seed, tier, "--repo", ctx.repo]
     b = fn_bounds()
     if b:
         args += ["--fn-bounds", b]
+    v = val_bounds()
+    if v:
+        args += ["--val-bounds", v]
     return args
 
 
@@ -43,6 +63,7 @@ FOCUS = {
     "lock_discipline_on_tree": ["swap-rust", "swap-script"],
     "counts_atomic_on_tree": ["refcount-storm"],
     "closures_own_on_tree": ["into-func"],
+    "slots_in_frame_on_tree": ["frame-slots"],
 }
 
 
@@ -58,11 +79,46 @@ def share_focus(ctx):
             if name.endswith("." + thm):
                 focus += [c for c in classes if c not in focus]
     if "extract:c12sharing" in ctx.broken and not focus:
-        focus = [c for cs in FOCUS.values() for c in cs]
+        focus = [c for t, cs in FOCUS.items() for c in cs if t != "slots_in_frame_on_tree"]
+    if "extract:c12frame" in ctx.broken:
+        focus = (focus or []) + ["frame-slots"]
     return focus or None
 
 
+# violation keys of the rustc probes that make a broken T3 obligation concrete
+SYNC_KEYS = ("registerable-fn-not-sync", "host-value-not-sync", "constant-not-send-sync")
+
+
+def explained(ctx):
+    """True when every theorem that fails to check already has a concrete failing
+    input of its class among the violations of the correspondence run (and nothing
+    else — an extraction, a build, a model mismatch — is broken)."""
+    failing = set()
+    for (name, ok, detail) in ctx.obligations:
+        if ok:
+            continue
+        if name.startswith("theorem:") and detail.startswith("fails to check"):
+            failing.add(name.rsplit(".", 1)[-1])
+        elif name.startswith("theorem:") or name.startswith("lake:"):
+            continue  # not checked because the module did not build
+        else:
+            return False
+    keys = [v.get("key", "") for v in ctx.impl_violations]
+    for thm in failing:
+        if thm == "sync_holds_on_tree":
+            ok = any(k in SYNC_KEYS for k in keys)
+        elif thm in FOCUS:
+            ok = any(c in k for k in keys for c in FOCUS[thm])
+        else:
+            ok = False
+        if not ok:
+            return False
+    return bool(failing)
+
+
 def search(ctx):
+    if explained(ctx):
+        return
     if not ctx.build_harness("c12"):
         return
     focus = share_focus(ctx)
@@ -117,9 +173,9 @@ def tsan(ctx):
 
 
 def run(ctx):
-    ctx.extract(["c12bounds", "c12sharing", "c12instr", "c12globals"])
+    ctx.extract(["c12bounds", "c12sharing", "c12instr", "c12globals", "c12frame"])
     ctx.prove(PROPS, extra_modules=["RotoV.Lemmas.Conc", "RotoV.Model.Conc", "RotoV.Lemmas.ConcShare", "RotoV.Model.ConcShare",
-                                     "RotoV.Lemmas.ConcExec", "RotoV.Model.ConcExec", "RotoV.Model.ConcInstr"])
+                                     "RotoV.Lemmas.ConcExec", "RotoV.Model.ConcExec", "RotoV.Model.ConcInstr", "RotoV.Model.ConcFrame", "RotoV.Lemmas.ConcFrame"])
     if ctx.build_harness("c12"):
         ctx.harness("c12", harness_args(ctx, ctx.seed, ctx.tier), timeout=3000)
         if ctx.tier == "thorough":
@@ -129,9 +185,14 @@ def run(ctx):
         "Rust code called from generated code (runtime functions, clone_fn, drop glue, eq_fn, string / literal initialisers) writes at most through the pointers it is handed for writing "
         "and reads only its operands and memory the call can address (Exec.RtConfined); derived in rtConfined_of_sync from T3 plus the trusted SitesAdmitted (every such Rust object was admitted through a generated bound list) "
         "and SyncConfines (the meaning of Send + Sync). Roto callees are NOT assumed: T5 runs them as frames of the same machine",
-        "Exec.resolve: a stack slot / return buffer / by-reference argument named by call i is memory of call i — Cranelift maps LIR stack slots to the frame of the running thread, the host passes "
-        "by-reference arguments from its own frame (codegen/mod.rs, value/mod.rs); modelled, not verified. Tied to the sources only as far as codegen_ops_match_model / eval_ops_match_model go "
-        "(which instruction kinds store, copy, load, call; frame push / pop and fresh slots in the reference interpreter)",
+        "Exec.resolve: a stack slot / return buffer / by-reference argument named by call i is memory of call i. For stack slots this is T7: the generated facts of target c12frame say that every "
+        "arm of the code generator's match over lir::ValueOrSlot backs a slot variable with a Cranelift explicit stack slot addressed by stack_addr and that the JIT module has no writable / thread-local "
+        "data object (slots_in_frame_on_tree, frame_sound); TRUSTED: a Cranelift explicit stack slot is part of the frame that the prologue of every activation allocates on the stack of the running thread; "
+        "the host passes the return buffer and by-reference arguments from its own frame (value/mod.rs; modelled, not verified). Exercised by share class frame-slots. Also tied by "
+        "codegen_ops_match_model / eval_ops_match_model (which instruction kinds store, copy, load, call; frame push / pop and fresh slots in the reference interpreter)",
+        "translator target c12frame: storage operations are recognised by METHOD NAME (create_sized_stack_slot + ExplicitSlot, stack_addr, declare_anonymous_data / declare_data with literal writable / tls "
+        "arguments, global_value / symbol_value / tls_value) inside ModuleBuilder::define_function, FuncGen::entry_block, FuncGen::instruction and the methods they call on self; an unclassified method or "
+        "function whose name contains store / load / mem / stack / data / global / alloc / leak / tls / ptr:: is an extraction failure; storage reached through a closure or a free function is outside the scan",
         "translator targets c12instr (enum Instruction; method-call names inside FuncGen::instruction and the FuncGen helpers it calls on self; operations on `mem` inside lir::eval::eval) and "
         "c12globals (every `static` item under src/ by the NAMES in its type: Mutex, RwLock, Atomic*, Cell, RefCell, UnsafeCell, Rc; uses of a lock-shaped static by token scan of the declaring file; a pub lock-shaped static is an extraction failure)",
         "rustc's auto-trait rules: a type passes a bound list iff it has the listed auto traits (Bounds.admits); checked against rustc on the probe programs of each run",
@@ -150,7 +211,10 @@ def run(ctx):
              "share classes (run first, each in its own worker): swap-rust / swap-script (N threads x swaps on overlapping indices of one shared list, concurrent snapshots: "
              "every snapshot and the final list must be a permutation of whole elements, element drop count balances), refcount-storm (clone/drop/compile storms on a registered closure "
              "and a registered constant holding a drop-counting token: no drop while an owner lives, exactly one at the end), into-func (closure of into_func called after every other "
-             "owner was dropped on another thread, several arities, with and without context)",
+             "owner was dropped on another thread, several arities, with and without context), frame-slots (run FIRST; one script per slot size 8 B … 256 KiB, sizes around the powers of two, "
+             "the big value as local / temporary argument / return slot / local live across a recursive call; N threads rendezvous INSIDE the function through a registered function, so all activations are "
+             "live at once in every round, then run free; every result must equal the closed form = the single-threaded result); rustc probes: a Send + !Sync closure, an Rc constant and a Send + !Sync "
+             "host value Val<T> in a script-level constant must be rejected (if accepted they are run: 4 x 100000 calls, lost updates reported), their Sync controls must build and count exactly",
         search=search,
     )
 
